@@ -341,6 +341,15 @@ func (a *Analyzer) store(st *State, p *Ptr, v Term, t types.Type) {
 	if m, ok := v.(*MapT); ok {
 		a.mapOrigin[m.Obj.ID] = loc
 	}
+	// truncation to the start of the same backing array (x = x[0:0]): later appends overwrite
+	// the old contents in place
+	if ns, ok := v.(*Slice); ok && !ns.IsStr {
+		if os, ok := st.Heap[loc].(*Slice); ok && ns.Len.IsConst() && ns.Len.C == 0 && !ns.Nil && ns.Off.Equal(os.Off) {
+			if _, shared := AliasClosure(ns.Base)[os.Base.ID]; shared && !(os.Len.IsConst() && os.Len.C == 0) {
+				a.markReused(ns, "buffer truncated to its start and appended to again ("+prettyPath(loc.Path)+")")
+			}
+		}
+	}
 	st.Heap[loc] = v
 }
 
